@@ -69,7 +69,31 @@ def r_hi32_equal(case, ob):
     return z3.Extract(63, 32, a) == z3.Extract(63, 32, b)
 
 
+def r_ldexp_outside_certified(case, ob):
+    """complement of the region where the three-multiplication ldexp emulation is solver-certified exact:
+    x normal, |e| <= 60, result normal"""
+    x, e = lane_inputs(case, ob)[:2]
+    w = x.size()
+    sb, eb = fp.SB[w], fp.EB[w]
+    ex = z3.ZeroExt(w - eb, z3.Extract(w - 2, sb - 1, x))
+    normal = z3.And(ex != 0, ex != M(eb))
+    small_e = z3.And(e >= -60, e <= 60)
+    re = ex + e
+    res_normal = z3.And(re >= 1, re <= M(eb) - 1)
+    return z3.Not(z3.And(normal, small_e, res_normal))
+
+
+def r_count_zero(case, ob):
+    """stores / loads with an element count of zero"""
+    for inp in case.inputs:
+        if inp['kind'] == 'U':
+            return inp['vars'][0] == 0
+    return z3.BoolVal(True)
+
+
 REGIONS = {
+    'ldexp_outside_certified': r_ldexp_outside_certified,
+    'count_zero': r_count_zero,
     'hi32_equal': r_hi32_equal,
 }
 
